@@ -173,7 +173,7 @@ ARM_SCRIPTS = {
         _removed_consumer(payload('basic', 'Cancel') + '.consumer_tag'),
         'case(%s ~ Some(_)) > %ssend(%s.Some.0, consumer::ConsumerMessage::ServerCancelled)'
         % (_removed_consumer(payload('basic', 'Cancel') + '.consumer_tag'), CS, _removed_consumer(payload('basic', 'Cancel') + '.consumer_tag')),
-        'if(!%s.nowait) > io_loop::Inner::push_method(inner, %s, %sbasic::AMQPMethod::CancelOk(%sbasic::CancelOk{consumer_tag: %s.consumer_tag}))'
+        'unless(%s.nowait) > io_loop::Inner::push_method(inner, %s, %sbasic::AMQPMethod::CancelOk(%sbasic::CancelOk{consumer_tag: %s.consumer_tag}))'
         % (payload('basic', 'Cancel'), N, AP, AP, payload('basic', 'Cancel')),
     ],
     # C11: server confirms the client's cancel: consumer removed, caller answered, then the terminal message
@@ -235,8 +235,8 @@ def _content(variant, arg, step):
     return [
         sl,
         coll,
-        some + 'case(%s ~ %sCollectorResult::Delivery((_, _))) > %s' % (res, CCOL, get),
-        some + 'case(%s ~ %sCollectorResult::Delivery((_, _))) > %ssend(<std::option::Option<T> as snafu::OptionExt<T>>::context(%s, errors::UnknownConsumerTagSnafu{channel_id: %s, consumer_tag: %s})?, consumer::ConsumerMessage::Delivery(%s.Delivery.0.1))'
+        some + 'case(%s ~ %sCollectorResult::Delivery(_)) > %s' % (res, CCOL, get),
+        some + 'case(%s ~ %sCollectorResult::Delivery(_)) > %ssend(<std::option::Option<T> as snafu::OptionExt<T>>::context(%s, errors::UnknownConsumerTagSnafu{channel_id: %s, consumer_tag: %s})?, consumer::ConsumerMessage::Delivery(%s.Delivery.0.1))'
         % (res, CCOL, CS, get, ch, tag, res),
         some + 'case(%s ~ %sCollectorResult::Return(_)) > %stry_send_return(%s?, %s.Return.0)' % (res, CCOL, CS, sl, res),
         some + 'case(%s ~ %sCollectorResult::Get(_)) > %ssend(%s?.tx, Ok(io_loop::ChannelMessage::GetOk(Some(%s.Get.0))))' % (res, CCOL, CS, sl, res),
